@@ -9,7 +9,8 @@
 //!   with a signal time every server runs `with_graceful_shutdown`; observations then also carry the virtual ms at which each
 //!   request's handler was entered and `srv=<serving futures that completed Ok>/<servers>` (C07)   (tls 2 / 3: the server's ALPN offers only http/1.1 / only h2)
 //!   (method `W` = protocol upgrade: GET with `Upgrade`, 101, then `bodylen` bytes to the server and `resplen` bytes back on the upgraded stream)
-//!   req: `<id> <ver 11|2> <origin 0-5: scheme/host/port variants, see `origin`> <method G|P|U|D|H|W> <pathlen> <querylen> <bodylen> <bodychunk> <bodyexact 0|1>
+//!   req: `<id> <ver 11|2> <origin 0-5: scheme/host/port variants, see `origin`> <method G|P|U|D|H|W, `h` appended: the caller sets its own Host header>
+//!         <pathlen | root: the path is `/` | nopath: the URI has no path> <querylen> <bodylen> <bodychunk> <bodyexact 0|1>
 //!         <handler delay ms> <resplen> <respchunk> <respexact 0|1> <start ms> <cancel after ms|->`
 //! obs : per request `<id>=<ok|cancelled|timeout|err:CLASS|mismatch:FIELDS>/<handler calls>/<ok|aborted|bad:FIELDS|->`
 use crate::rng::Rng;
@@ -64,14 +65,16 @@ impl http_body::Body for ChunkBody {
 use std::future::Future;
 
 #[derive(Clone, Debug)]
-struct R { id: u64, h2: bool, origin: u64, method: &'static str, plen: usize, qlen: usize, blen: usize, bchunk: usize, bexact: bool,
+struct R { id: u64, h2: bool, origin: u64, method: &'static str, own_host: bool, shape: u8, plen: usize, qlen: usize, blen: usize, bchunk: usize, bexact: bool,
            delay: u64, rlen: usize, rchunk: usize, rexact: bool, start: u64, cancel: Option<u64> }
 
 fn parse_req(t: &[&str]) -> Option<R> {
     if t.len() != 15 { return None; }
     let n = |i: usize| t[i].parse::<u64>().ok();
-    Some(R { id: n(0)?, h2: t[1] == "2", origin: n(2)?, method: match t[3] { "G" => "GET", "P" => "POST", "U" => "PUT", "D" => "DELETE", "H" => "HEAD", "W" => "UPGRADE", _ => return None },
-        plen: n(4)? as usize, qlen: n(5)? as usize, blen: n(6)? as usize, bchunk: n(7)? as usize, bexact: t[8] == "1", delay: n(9)?, rlen: n(10)? as usize,
+    let (own_host, m) = match t[3].strip_suffix('h') { Some(m) => (true, m), None => (false, t[3]) };
+    let (shape, plen) = match t[4] { "root" => (1u8, 0), "nopath" => (2u8, 0), _ => (0u8, n(4)? as usize) };
+    Some(R { id: n(0)?, h2: t[1] == "2", origin: n(2)?, own_host, shape, plen, method: match m { "G" => "GET", "P" => "POST", "U" => "PUT", "D" => "DELETE", "H" => "HEAD", "W" => "UPGRADE", _ => return None },
+        qlen: n(5)? as usize, blen: n(6)? as usize, bchunk: n(7)? as usize, bexact: t[8] == "1", delay: n(9)?, rlen: n(10)? as usize,
         rchunk: n(11)? as usize, rexact: t[12] == "1", start: n(13)?, cancel: if t[14] == "-" { None } else { Some(n(14)?) } })
 }
 
@@ -142,13 +145,16 @@ async fn handler(log: Arc<Mutex<SrvLog>>, me: usize, req: http::Request<Body>) -
     let path = parts.uri.path().to_string();
     let mut seg = path.trim_start_matches('/').split('/');
     let _r = seg.next();
-    let id: u64 = seg.next().and_then(|s| s.parse().ok()).unwrap_or(u64::MAX);
+    let id_in_path: u64 = seg.next().and_then(|s| s.parse().ok()).unwrap_or(u64::MAX);
     let filler = seg.next().unwrap_or("").to_string();
+    // requests for the root path (or with no path at all) carry their id in the header and in the query only
+    let rootish = h("x-ps") != "n";
+    let id = if rootish { hn("x-id") } else { id_in_path };
     let (body, aborted) = match body.collect().await { Ok(c) => (c.to_bytes(), false), Err(_) => (Bytes::new(), true) };
     let mut bad = vec![];
     if hn("x-id") != id { bad.push("id"); }
     if h("x-m") != parts.method.as_str() { bad.push("method"); }
-    if filler != text(id, 3, hn("x-pl") as usize % 100000) { bad.push("path"); }
+    if rootish { if path != "/" { bad.push("path"); } } else if filler != text(id, 3, hn("x-pl") as usize % 100000) { bad.push("path"); }
     let q = parts.uri.query().unwrap_or("");
     let ql = hn("x-ql") as usize % 100000;
     if (ql == 0 && !q.is_empty()) || (ql > 0 && q != format!("q={}", text(id, 4, ql))) { bad.push("query"); }
@@ -161,7 +167,10 @@ async fn handler(log: Arc<Mutex<SrvLog>>, me: usize, req: http::Request<Body>) -
     // an explicit default port may or may not survive (Host header vs :authority): equivalent
     let dflt = h("x-dp");
     let seen_origin = seen_origin.strip_suffix(dflt.as_str()).unwrap_or(&seen_origin).to_string();
-    if seen_origin != h("x-h") { bad.push("host"); }
+    // a Host header the caller set itself reaches the server on an HTTP/1 connection; on an HTTP/2 connection Host is removed
+    // and the authority is the URI's
+    let want_host = if parts.version != http::Version::HTTP_2 && !h("x-hc").is_empty() { h("x-hc") } else { h("x-h") };
+    if seen_origin != want_host { bad.push("host"); }
     if hn("x-s") != me as u64 { bad.push("server"); }
     // the version the handler sees is the connection's, which the pool may choose (a pooled HTTP/2
     // connection serves HTTP/1.1 requests of its origin too): not compared
@@ -210,7 +219,7 @@ fn fnv(b: &[u8]) -> u64 { b.iter().fold(0xcbf29ce484222325u64, |h, x| (h ^ *x as
 
 fn build(r: &R, tls: bool) -> http::Request<ChunkBody> {
     let (scheme, authority, srv, host) = origin(r.origin, tls);
-    let mut uri = format!("{scheme}://{authority}/r/{}/{}", r.id, text(r.id, 3, r.plen));
+    let mut uri = match r.shape { 0 => format!("{scheme}://{authority}/r/{}/{}", r.id, text(r.id, 3, r.plen)), 1 => format!("{scheme}://{authority}/"), _ => format!("{scheme}://{authority}") };
     if r.qlen > 0 { uri.push_str(&format!("?q={}", text(r.id, 4, r.qlen))); }
     let upgrade = r.method == "UPGRADE";
     let mut b = http::Request::builder()
@@ -218,7 +227,9 @@ fn build(r: &R, tls: bool) -> http::Request<ChunkBody> {
         .uri(uri)
         .version(if r.h2 { http::Version::HTTP_2 } else { http::Version::HTTP_11 });
     if upgrade { b = b.header(http::header::CONNECTION, "upgrade").header(http::header::UPGRADE, "hdverif"); }
+    if r.own_host { b = b.header(http::header::HOST, format!("vhost{}.test", r.id)).header("x-hc", format!("vhost{}.test", r.id)); }
     b
+        .header("x-ps", match r.shape { 0 => "n", 1 => "r", _ => "e" })
         .header("x-id", r.id.to_string()).header("x-m", if upgrade { "GET" } else { r.method }).header("x-pl", r.plen.to_string()).header("x-ql", r.qlen.to_string())
         .header("x-bl", r.blen.to_string()).header("x-o", r.origin.to_string()).header("x-h", host).header("x-dp", if tls { ":443" } else { ":80" }).header("x-s", srv.to_string()).header("x-v", if r.h2 { "2" } else { "11" })
         .header("x-d", r.delay.to_string()).header("x-rl", r.rlen.to_string()).header("x-rc", r.rchunk.to_string())
@@ -265,7 +276,7 @@ async fn one(svc: hyperdriver::service::SharedService<http::Request<ChunkBody>, 
         if parts.status.as_u16() != status_of(r.id) { bad.push("status"); }
         if h("x-id") != r.id.to_string() { bad.push("id"); }
         let (_, _, srv, host) = origin(r.origin, tls);
-        if h("x-origin") != host { bad.push("origin"); }
+        if h("x-origin") != host && !(r.own_host && h("x-origin") == format!("vhost{}.test", r.id)) { bad.push("origin"); }
         if h("x-server") != srv.to_string() { bad.push("server"); }
         if h("x-resp-custom") != format!("r{}", r.id) { bad.push("header"); }
         if h("x-body-digest") != format!("{:x}", fnv(&pat(r.id, 1, r.blen))) { bad.push("reqdigest"); }
@@ -432,6 +443,8 @@ pub fn gen(r: &mut Rng, _i: u64) -> String {
         // protocol upgrades are an HTTP/1.1 mechanism (on an HTTP/2 connection the Upgrade header is, correctly, dropped): they are
         // generated for one origin of the scenario, whose requests are then all HTTP/1.1, and not where TLS may negotiate h2
         let method = if method == "W" && !upgrades { "G" } else { method };
+        let own_host = if method != "W" && r.chance(1, 6) { "h" } else { "" };
+        let (shape, force_query) = match r.below(10) { 0 => ("root", r.chance(3, 4)), 1 => ("nopath", true), _ => ("", false) };
         let org = if method == "W" { upg_origin } else { org };
         let ver = if upgrades && org == upg_origin { "11" } else { ver };
         let blen = if method == "G" || method == "H" || method == "D" { if r.chance(1, 6) { small(r) } else { 0 } } else { small(r) };
@@ -447,8 +460,9 @@ pub fn gen(r: &mut Rng, _i: u64) -> String {
         let cancel = if r.chance(1, 5) { r.pick(&[0u64, 1, 2, 5, 10, 30, 120]).to_string() } else { "-".to_string() };
         // hyper sends no body for GET/HEAD unless its length is known up front
         let bexact = if method == "G" || method == "H" { 1 } else { r.chance(1, 2) as u8 };
-        reqs.push(format!("{id} {ver} {} {method} {} {} {blen} {bchunk} {bexact} {delay} {rlen} {rchunk} {} {start} {cancel}",
-            org, r.below(40), if r.chance(1, 2) { 0 } else { r.range(1, 30) }, r.chance(1, 2) as u8));
+        let plen = if shape.is_empty() { r.below(40).to_string() } else { shape.to_string() };
+        reqs.push(format!("{id} {ver} {} {method}{own_host} {plen} {} {blen} {bchunk} {bexact} {delay} {rlen} {rchunk} {} {start} {cancel}",
+            org, if !force_query && r.chance(1, 2) { 0 } else { r.range(1, 30) }, r.chance(1, 2) as u8));
     }
     format!("{buf} {pool} {tls} ; {}", reqs.join(" ; "))
 }
